@@ -664,16 +664,22 @@ func shrink(sc *Scenario, sig string, budget int) *Scenario {
 
 // ---- hang detection: a rule loop that never reaches a fixed point is a finding -----------------
 
+type watchEntry struct {
+	t  time.Time
+	in In
+	m  int
+	n  int // events completed before this call
+}
+
 var (
 	watchMu   sync.Mutex
-	watched   = map[*World]time.Time{}
-	onHang    func(w *World)
+	watched   = map[*World]watchEntry{}
 	watchOnce sync.Once
 )
 
 func watchEnter(w *World) {
 	watchMu.Lock()
-	watched[w] = time.Now()
+	watched[w] = watchEntry{t: time.Now(), in: *w.Pending, m: w.PendingM, n: max(w.nEv-1, 0)}
 	watchMu.Unlock()
 }
 
@@ -683,24 +689,32 @@ func watchLeave(w *World) {
 	watchMu.Unlock()
 }
 
-// startWatchdog reports a call into the state machine that has been running for more than
-// `limit` (the callback must not return: it writes the result and exits the process, the stuck
-// goroutine cannot be stopped).
-func startWatchdog(limit time.Duration, hang func(w *World)) {
+// startWatchdog looks for a call into the state machine that has been pending for more than `limit`
+// and hands the history up to and including that input to `suspect` (in the watchdog's goroutine; the
+// entry is forgotten afterwards). The verdict must not depend on how busy the machine is: `suspect`
+// re-runs the history on fresh machines and only a second, much longer wait makes it a finding.
+func startWatchdog(limit time.Duration, suspect func(sc *Scenario, m int, in In)) {
 	watchOnce.Do(func() {
 		go func() {
 			for {
-				time.Sleep(200 * time.Millisecond)
+				time.Sleep(500 * time.Millisecond)
 				watchMu.Lock()
 				var stuck *World
-				for w, t := range watched {
-					if time.Since(t) > limit {
-						stuck = w
+				var e watchEntry
+				for w, x := range watched {
+					if time.Since(x.t) > limit {
+						stuck, e = w, x
 					}
+				}
+				if stuck != nil {
+					delete(watched, stuck)
 				}
 				watchMu.Unlock()
 				if stuck != nil {
-					hang(stuck)
+					cut := *stuck.sc
+					evs := stuck.sc.Events
+					cut.Events = append(append([]Event(nil), evs[:min(len(evs), e.n)]...), Event{M: e.m, In: e.in})
+					suspect(&cut, e.m, e.in)
 				}
 			}
 		}()
